@@ -102,6 +102,8 @@ def render_script(case, v, s):
         L.append('printf "%s" "$out" | redo-stamp')
     elif st >= 2:
         L.append("printf 'K%d' | redo-stamp" % (st - 2))
+    if st:
+        L.append(crash % (len(s.get("ifchange", [])) + 1))     # a kill after redo-stamp, before the script ends
     L.append("exit %d" % s.get("exit", 0))
     return "\n".join(L) + "\n"
 
@@ -434,6 +436,14 @@ def gen_case(rng, size=None, features=None):
                 # whatever depends on it is brought up to date, and then nothing must run any more
                 ops.append(("ifc", list(tgts), False))
                 ops.append(("ifc", list(tgts), False))
+        elif r < 0.73 + feats.get("handedit2", 0.0) + feats.get("editrm", 0.0):
+            # a generated target is edited by hand, everything is brought up to date, the file is removed and
+            # everything is brought up to date again (the regenerated file may have the data it had before the edit)
+            t = rng.choice(tgts)
+            ops.append(("w", t, 100 + rng.randint(0, 5)))
+            ops.append(("ifc", list(tgts), False))
+            ops.append(("r", t))
+            ops.append(("ifc", list(tgts), False))
         elif r < 0.80:
             t = rng.choice(tgts)
             i = tgts.index(t)
